@@ -5,8 +5,8 @@
   snapshots (profile bookkeeping, handler routing table, renewal task, device.available).
 
   The monitor is evaluated by the driver on the IMPLEMENTATION's trace; the theorems of
-  `Props/C12.lean` are about the same predicates (`subOkPost`, `subFailPost`, `cleanSnap`, `lapseFree…`,
-  `Mon`) applied to what the model emits.  Import-free apart from the model vocabulary.
+  `Props/C12.lean` are about the same predicates and clause monitors (`subOkPost`, `subFailPost`,
+  `cleanSnap`, `cleanMon`, `aonMon`, …) applied to what the model emits.  Import-free apart from the model vocabulary.
 -/
 import Upnp.Model.PyDict
 import Upnp.Model.C12Types
@@ -62,38 +62,138 @@ def expiryOf (subTimeout : Nat) (r : Req) : Option Time :=
   | .infinite => none
   | .absent => some (r.t + (subTimeout : Int) * 1000)
 
-/-! ### the monitor -/
+/-! ### clause monitors
 
-inductive Pend where
-  | none
-  | snapAfterUnsub
-  | snapAfterSub (res : Res) (auto : Bool)
-  | cbFor (svc : Nat) (avail : Bool) (due : Time)     -- a failed renewal must be reported
-  | fallbackFor (svc : Nat) (due : Time)              -- (C09) refused renewal is followed by a SUBSCRIBE
-deriving DecidableEq, Repr, Inhabited
+Each clause of the property is a small state machine folded over the trace (oldest event first);
+`bad` collects the violated sub-clauses.  The machines are independent, so each can be reasoned about
+(and is proved for the model, `Props/C12.lean`) on its own. -/
 
-structure Mon where
-  n : Nat
-  tolMs : Int
-  subTimeout : Nat
-  ever : List Sid := []
-  expiry : PyDict Sid (Option Time) := []
-  avail : Bool := true
-  inCall : Option CallK := none
-  callReqs : List Req := []          -- requests of the current call, newest first
-  quiet : Bool := false
-  auto : Bool := false
-  calm : Bool := true
-  window : List Nat := []
-  pend : Pend := .none
-  bad : List String := []            -- violated clauses, newest first
-deriving Repr, Inhabited
-
-def Mon.flag (m : Mon) (c : Bool) (what : String) : Mon := if c then m else { m with bad := what :: m.bad }
+def flagged (bad : List String) (c : Bool) (what : String) : List String := if c then bad else what :: bad
 
 def Ev.time : Ev → Time
   | .req r => r.t
   | .cb t .. | .call t _ | .ret t .. | .snap t .. | .spin t => t
+
+/-! #### cleanly ended -/
+
+structure CleanMon where
+  ever : List Sid := []        -- every SID granted so far
+  quiet : Bool := false        -- after `ret unsub`, before the next `call sub`
+  pend : Bool := false         -- the next event must be the snapshot after `ret unsub`
+  bad : List String := []
+deriving Repr, Inhabited
+
+def cleanStep (m : CleanMon) (e : Ev) : CleanMon :=
+  let m : CleanMon :=
+    if m.pend then
+      (match e with
+       | .snap _ subs routed task _ =>
+          { m with pend := false, bad := flagged m.bad (cleanSnap m.ever subs routed task) "clean:state-after-unsubscribe" }
+       | _ => { m with pend := false, bad := flagged m.bad false "clean:no-snapshot" })
+    else m
+  match e with
+  | .req r => { m with bad := flagged m.bad (!m.quiet) "clean:request-after-unsubscribe",
+                       ever := (match r.granted with | some g => g :: m.ever | none => m.ever) }
+  | .ret _ .unsub _ => { m with pend := true, quiet := true }
+  | .call _ (.sub _) => { m with quiet := false }
+  | _ => m
+
+def cleanMon (tr : List Ev) : CleanMon := tr.foldl cleanStep {}
+
+/-! #### all or nothing -/
+
+structure AonMon where
+  n : Nat
+  inSub : Bool := false
+  reqs : List Req := []               -- requests of the current subscribe call, newest first
+  pend : Option Res := none           -- the next event must be the snapshot after `ret sub res`
+  bad : List String := []
+deriving Repr, Inhabited
+
+def aonStep (m : AonMon) (e : Ev) : AonMon :=
+  let m : AonMon :=
+    match m.pend with
+    | none => m
+    | some res =>
+      (match e with
+       | .snap _ subs routed task _ =>
+          (match res with
+           | none => { m with pend := none, bad := flagged m.bad (subOkPost m.n m.reqs.reverse subs routed) "allornothing:after-success" }
+           | some _ => { m with pend := none, bad := flagged m.bad (subFailPost m.n m.reqs.reverse subs routed task) "allornothing:after-failure" })
+       | _ => { m with pend := none, bad := flagged m.bad false "allornothing:no-snapshot" })
+  match e with
+  | .call _ (.sub _) => { m with inSub := true, reqs := [] }
+  | .req r => if m.inSub then { m with reqs := r :: m.reqs } else m
+  | .ret _ (.sub _) res => { m with inSub := false, pend := some res }
+  | _ => m
+
+def aonMon (n : Nat) (tr : List Ev) : AonMon := tr.foldl aonStep { n }
+
+/-! #### a failed renewal is reported once -/
+
+inductive RPend where
+  | none
+  | cbFor (svc : Nat) (avail : Bool) (due : Time)     -- a failed renewal must be reported at `due`
+  | fallbackFor (svc : Nat) (due : Time)              -- (C09) a refused renewal is followed by a SUBSCRIBE
+deriving DecidableEq, Repr, Inhabited
+
+structure RepMon where
+  avail : Bool := true
+  inCall : Bool := false
+  pend : RPend := .none
+  bad : List String := []
+deriving Repr, Inhabited
+
+def repStep (m0 : RepMon) (e : Ev) : RepMon :=
+  -- phase 1: an obligation that is due
+  let m : RepMon :=
+    match m0.pend with
+    | .none => m0
+    | .cbFor svc av due =>
+      if e.time < due then
+        (match e with
+         | .call _ .unsub => { m0 with pend := .none }   -- the renewal is cancelled before its reply
+         | .snap .. => m0
+         | _ => { m0 with pend := .none, bad := flagged m0.bad false "report:event-before-reply" })
+      else
+        (match e with
+         | .cb _ svc' 0 av' => { m0 with pend := .none, avail := av, bad := flagged m0.bad (svc' == svc && av' == av) "report:wrong-callback" }
+         | _ => { m0 with pend := .none, bad := flagged m0.bad false "report:failed-renewal-not-reported" })
+    | .fallbackFor svc due =>
+      if e.time < due then
+        (match e with
+         | .call _ .unsub => { m0 with pend := .none }
+         | .snap .. => m0
+         | _ => { m0 with pend := .none, bad := flagged m0.bad false "report:event-before-reply" })
+      else
+        (match e with
+         | .req r => { m0 with pend := .none, bad := flagged m0.bad (r.kind == Kind.sub && r.svc == svc) "report:no-fallback-subscribe" }
+         | _ => { m0 with pend := .none, bad := flagged m0.bad false "report:no-fallback-subscribe" })
+  -- phase 2: the event itself
+  match e with
+  | .req r =>
+    if m.inCall then m
+    else
+      (match r.kind with
+       | .renew => if r.reac.accepts then m
+                   else if r.reac == .unreach then { m with pend := .cbFor r.svc false (r.t + r.lat) }
+                   else { m with pend := .fallbackFor r.svc (r.t + r.lat) }
+       | .sub => if r.reac.accepts then m
+                 else { m with pend := .cbFor r.svc (m.avail && r.reac != .unreach) (r.t + r.lat) }
+       | .unsub => m)
+  | .cb _ _ nv _ =>
+    -- a callback with an empty change list is legitimate only as the report of a failed renewal
+    (match m0.pend with
+     | .cbFor .. => m
+     | _ => { m with bad := flagged m.bad (nv != 0) "report:spurious-empty-callback" })
+  | .call .. => { m with inCall := true }
+  | .ret .. => { m with inCall := false }
+  | .snap _ _ _ _ av => { m with bad := flagged m.bad (av == m.avail) "report:available-flag" }
+  | .spin _ => m
+
+def repMon (tr : List Ev) : RepMon := tr.foldl repStep {}
+
+/-! #### kept alive -/
 
 /-- the publisher's bookkeeping after request `r` -/
 def pubUpdate (subTimeout : Nat) (ex : PyDict Sid (Option Time)) (r : Req) : PyDict Sid (Option Time) :=
@@ -119,93 +219,54 @@ def noneExpired (ex : PyDict Sid (Option Time)) (t : Time) : Bool :=
 
 def sumNat (l : List Nat) : Nat := l.foldl (· + ·) 0
 
-/-- phase 1: an obligation on the next event -/
-def pendStep (m : Mon) (e : Ev) : Mon :=
-  match m.pend with
-  | .none => m
-  | .snapAfterUnsub =>
-    (match e with
-     | .snap _ subs routed task _ => { m with pend := .none }.flag (cleanSnap m.ever subs routed task) "clean:state-after-unsubscribe"
-     | _ => { m with pend := .none }.flag false "clean:no-snapshot")
-  | .snapAfterSub res auto =>
-    (match e with
-     | .snap _ subs routed task _ =>
-        let reqs := m.callReqs.reverse
-        (match res with
-         | none => { m with pend := .none }.flag (subOkPost m.n reqs subs routed) "allornothing:after-success"
-         | some _ => { m with pend := .none }.flag (subFailPost m.n reqs subs routed task) "allornothing:after-failure")
-     | _ => { m with pend := .none }.flag false "allornothing:no-snapshot")
-  | .cbFor svc av due =>
-    if e.time < due then
-      (match e with
-       | .call _ .unsub => { m with pend := .none }   -- the renewal is cancelled before its reply
-       | .snap .. => m
-       | _ => { m with pend := .none }.flag false "report:event-before-reply")
-    else
-      (match e with
-       | .cb _ svc' 0 av' => { m with pend := .none, avail := av }.flag (svc' == svc && av' == av) "report:wrong-callback"
-       | _ => { m with pend := .none }.flag false "report:failed-renewal-not-reported")
-  | .fallbackFor svc due =>
-    if e.time < due then
-      (match e with
-       | .call _ .unsub => { m with pend := .none }
-       | .snap .. => m
-       | _ => { m with pend := .none }.flag false "report:event-before-reply")
-    else
-      (match e with
-       | .req r => { m with pend := .none }.flag (r.kind == Kind.sub && r.svc == svc) "report:no-fallback-subscribe"
-       | _ => { m with pend := .none }.flag false "report:no-fallback-subscribe")
+structure LapseMon where
+  n : Nat
+  tolMs : Int
+  subTimeout : Nat
+  expiry : PyDict Sid (Option Time) := []   -- the publisher's view of this session's subscriptions
+  auto : Bool := false                      -- auto-renewal in force (`sub auto` returned, no unsubscribe since)
+  calm : Bool := true                       -- the latency / acceptance hypothesis holds so far in this session
+  window : List Nat := []                   -- latencies of the last `n` SUBSCRIBE requests
+  bad : List String := []
+deriving Repr, Inhabited
 
-/-- phase 2: the event itself -/
-def evStep (m0 : Mon) (m : Mon) (e : Ev) : Mon :=
+def lapseStep (m : LapseMon) (e : Ev) : LapseMon :=
   match e with
   | .req r =>
-    let m := m.flag (!m.quiet) "clean:request-after-unsubscribe"
-    -- kept alive: a renewal must arrive before the publisher's expiry
-    let m := m.flag (!(r.kind == .renew && m.auto && m.calm && (match r.sid with | some s => lapsed m.expiry s r.t | none => false)))
-                    "lapse:renewal-after-expiry"
+    -- a renewal must arrive before the publisher's expiry
+    let bad := flagged m.bad
+      (!(r.kind == .renew && m.auto && m.calm && (match r.sid with | some s => lapsed m.expiry s r.t | none => false)))
+      "lapse:renewal-after-expiry"
     let isSubscribe := r.kind != .unsub
     let window := if isSubscribe then (r.lat :: m.window).take m.n else m.window
     let tmoOk := match r.tmo with | .sec k => decide (m.tolMs ≤ (k : Int) * 1000) | _ => true
     let calm := m.calm && (!isSubscribe || (r.reac.accepts && tmoOk && decide ((sumNat window : Int) < m.tolMs)))
-    let pend : Pend :=
-      if m.inCall.isSome then m.pend
-      else match r.kind with
-        | .renew => if r.reac.accepts then m.pend
-                    else if r.reac == .unreach then .cbFor r.svc false (r.t + r.lat)
-                    else .fallbackFor r.svc (r.t + r.lat)
-        | .sub => if r.reac.accepts then m.pend else .cbFor r.svc (m.avail && r.reac != .unreach) (r.t + r.lat)
-        | .unsub => m.pend
-    { m with ever := (match r.granted with | some g => g :: m.ever | none => m.ever),
-             expiry := pubUpdate m.subTimeout m.expiry r,
-             window, calm, pend,
-             callReqs := if m.inCall.isSome then r :: m.callReqs else m.callReqs }
-  | .cb _ _ nv _ =>
-    -- a callback with an empty change list is legitimate only as the report of a failed renewal
-    (match m0.pend with
-     | .cbFor .. => m
-     | _ => m.flag (nv != 0) "report:spurious-empty-callback")
-  | .call _ (.sub _) =>
-    { m with inCall := some (.sub false), callReqs := [], quiet := false, calm := true, window := [], auto := false,
-             expiry := [] }
-  | .call _ .unsub => { m with inCall := some .unsub, callReqs := [], auto := false }
-  | .ret _ (.sub a) res =>
-    { m with inCall := none, pend := .snapAfterSub res a, auto := a && res.isNone }
-  | .ret _ .unsub _ => { m with inCall := none, pend := .snapAfterUnsub, quiet := true }
-  | .snap t _ _ _ av =>
-    let m := m.flag (av == m.avail) "report:available-flag"
-    -- kept alive: with auto-renewal and a well-behaved publisher nothing the publisher holds for this
-    -- session has passed its expiry (it was renewed in time)
-    if m.auto && m.calm then m.flag (noneExpired m.expiry t) "lapse:expired-at-publisher" else m
-  | .spin _ => m.flag false "yield:renewal-loop-does-not-yield"
+    { m with bad, window, calm, expiry := pubUpdate m.subTimeout m.expiry r }
+  | .call _ (.sub _) => { m with calm := true, window := [], auto := false, expiry := [] }
+  | .call _ .unsub => { m with auto := false }
+  | .ret _ (.sub a) res => { m with auto := a && res.isNone }
+  | .snap t _ _ _ _ =>
+    -- with auto-renewal and a well-behaved publisher nothing the publisher holds for this session has
+    -- passed its expiry (it was renewed in time)
+    if m.auto && m.calm then { m with bad := flagged m.bad (noneExpired m.expiry t) "lapse:expired-at-publisher" } else m
+  | _ => m
 
-def mstep (m : Mon) (e : Ev) : Mon := evStep m (pendStep m e) e
+def lapseMon (n tolSecs subTimeout : Nat) (tr : List Ev) : LapseMon :=
+  tr.foldl lapseStep { n, tolMs := (tolSecs : Int) * 1000, subTimeout }
 
-def Mon.init (n : Nat) (tolSecs subTimeout : Nat) : Mon := { n, tolMs := (tolSecs : Int) * 1000, subTimeout }
+/-! #### the loop yields -/
 
-def monitor (n tolSecs subTimeout : Nat) (tr : List Ev) : Mon := tr.foldl mstep (Mon.init n tolSecs subTimeout)
+def yieldBad (tr : List Ev) : List String :=
+  if tr.any (fun e => match e with | .spin _ => true | _ => false) then ["yield:renewal-loop-does-not-yield"] else []
+
+/-! ### the judge -/
+
+/-- violated sub-clauses, by clause -/
+def violations (n tolSecs subTimeout : Nat) (tr : List Ev) : List String :=
+  (aonMon n tr).bad.reverse ++ (lapseMon n tolSecs subTimeout tr).bad.reverse ++ (repMon tr).bad.reverse
+    ++ (cleanMon tr).bad.reverse ++ yieldBad tr
 
 /-- **the judge**: no clause of the property is violated on the trace -/
-def ok (n tolSecs subTimeout : Nat) (tr : List Ev) : Bool := (monitor n tolSecs subTimeout tr).bad.isEmpty
+def ok (n tolSecs subTimeout : Nat) (tr : List Ev) : Bool := (violations n tolSecs subTimeout tr).isEmpty
 
 end Upnp.C12
